@@ -199,7 +199,10 @@ class Lexer:
             text = text[len(codecs.BOM_UTF8) :]
             parsed_encoding = "utf-8"
             m = self._coding_re.match(text.decode("utf-8", "ignore"))
-            if m is not None and m.group(1) != "utf-8":
+            if (
+                m is not None
+                and m.group(1).lower().replace("_", "-") != "utf-8"
+            ):
                 raise exceptions.CompileException(
                     "Found utf-8 BOM in file, with conflicting "
                     "magic encoding comment of '%s'" % m.group(1),
